@@ -305,6 +305,7 @@ func (j *c09Job) RunUnit(i int, c *run.Ctx) {
 		seq := j.seqs[si]
 		full := uint(1)<<uint(len(seq)) - 1
 		for ri, r := range j.roots {
+			c.Tick()
 			doc, members := c09Doc(seq, object, r)
 			pristine := gen.Clone(doc)
 			for k := range sels {
